@@ -30,6 +30,8 @@ use compio_actor::{
     Actor, ActorExit, Call, Cluster, Handler, Mailbox,
     cluster::SpawnError,
     mailbox::{CallError, DeliverError},
+    process_group::{Membership, ProcessGroup},
+    supervisor::SupervisionEvent,
 };
 use compio_driver::ProactorBuilder;
 use simcore::{self as sim, RunResult, check, worker::Scenario};
@@ -40,13 +42,22 @@ use crate::{
 };
 
 pub fn scenarios() -> Vec<Scenario> {
-    vec![Scenario {
-        name: "actors",
-        property: "C19",
-        engine: "M",
-        run: actors,
-        weight: 1,
-    }]
+    vec![
+        Scenario {
+            name: "actors",
+            property: "C19",
+            engine: "M",
+            run: actors,
+            weight: 2,
+        },
+        Scenario {
+            name: "groups",
+            property: "C19",
+            engine: "M",
+            run: groups,
+            weight: 1,
+        },
+    ]
 }
 
 #[derive(Clone, Copy, Debug, PartialEq)]
@@ -537,5 +548,276 @@ fn actors() -> RunResult {
     errs.first()?;
     check!(end.open_rings == 0 && multi.open_rings == 0, "ring-leak", "{} rings still open", end.open_rings + multi.open_rings);
     sim::log(|| format!("{} threads, {} baton hand-overs", multi.threads, multi.switches));
+    Ok(())
+}
+
+// ------------------------------------------------------------------ process groups and supervision
+
+/// Records what it is told about its children.
+struct Sup {
+    log: Arc<Mutex<Vec<(String, &'static str)>>>,
+}
+
+impl Actor for Sup {
+    type Arguments = ();
+    type Error = String;
+    type State = ();
+
+    async fn pre_start(&self, _myself: &Mailbox<Self>, (): ()) -> Result<(), String> {
+        Ok(())
+    }
+}
+
+impl Handler<SupervisionEvent<Worker>> for Sup {
+    async fn handle(&self, _myself: &Mailbox<Self>, event: SupervisionEvent<Worker>, _state: &mut ()) -> Result<(), String> {
+        let what = match &event {
+            SupervisionEvent::ActorStarted(_) => "started",
+            SupervisionEvent::ActorTerminated(_) => "terminated",
+            SupervisionEvent::ActorFailed(_) => "failed",
+        };
+        self.log.lock().unwrap().push((event.actor().name().unwrap_or("?").to_string(), what));
+        Ok(())
+    }
+}
+
+#[derive(Clone, Copy, Debug)]
+enum GOp {
+    Send(Work),
+    SendFailing,
+    StopMember(usize),
+    Leave(usize),
+}
+
+#[derive(Clone, Debug)]
+struct GStep {
+    id: u32,
+    client: usize,
+    op: GOp,
+}
+
+/// C19, routing and supervision: a process group over 2..3 member actors with small mailboxes; the main task
+/// and client threads send through the group while members are stopped, fail or leave; a supervisor actor
+/// records what it is told about the members. Oracles: a message sent through the group is handled by at
+/// most one member (`group-duplicated`), by none when it was handed back (`group-returned-but-handled`), by
+/// exactly one when no member was stopped, failed or left (`group-lost`), and is not refused as `Closed`
+/// while an untouched member is in the group (`group-closed`); the supervisor hears of each member's start
+/// once, before the one notice of its end, which matches the member's exit (`supervision`).
+fn groups() -> RunResult {
+    let mut cfg = simkernel::KConfig::draw();
+    cfg.unsupported.clear();
+    let workers = 1 + sim::choose("workers", 2);
+    let members = 2 + sim::choose("members", 2);
+    let caps: Vec<Option<usize>> = (0..members).map(|_| [None, Some(1), Some(2)][sim::choose("member.capacity", 3)]).collect();
+    let supervised = sim::flip("supervised", 2, 3);
+    let clients = sim::choose("client.threads", 3);
+    let calm = sim::flip("no.member.ends", 1, 3);
+    let steps: Vec<GStep> = (0..sim::range("steps", 0, 14) as u32)
+        .map(|id| {
+            let client = sim::choose("step.client", clients + 1);
+            let op = match sim::weighted("gstep.op", &[10, 1, 1, 1]) {
+                0 => GOp::Send([Work::None, Work::Yield, Work::Sleep(30)][sim::choose("step.work", 3)]),
+                1 if !calm => GOp::SendFailing,
+                2 if !calm => GOp::StopMember(sim::choose("step.member", members)),
+                3 if !calm => GOp::Leave(sim::choose("step.member", members)),
+                _ => GOp::Send(Work::None),
+            };
+            GStep { id, client, op }
+        })
+        .collect();
+    let capacity = 1u32 << sim::range("ring.capacity.log2", 1, 5);
+    sim::log(|| format!("{workers} workers, {clients} client threads, {members} members with capacities {caps:?}, supervised: {supervised}; ring capacity {capacity}; {cfg:?}"));
+    sim::log(|| format!("steps {steps:?}"));
+    let errs = SharedErrs::default();
+    let recs: Vec<Arc<Rec>> = (0..members).map(|_| Arc::new(Rec::default())).collect();
+    let sup_log: Arc<Mutex<Vec<(String, &'static str)>>> = Arc::default();
+
+    let (end, multi) = run_on_kernel_multi(cfg, {
+        let (errs, recs, steps, sup_log, caps) = (errs.clone(), recs.clone(), steps.clone(), sup_log.clone(), caps.clone());
+        move || {
+            let mut pb = ProactorBuilder::new();
+            pb.capacity(capacity).driver_type(compio_driver::DriverType::IoUring);
+            let rt = compio_runtime::Runtime::builder().with_proactor(pb.clone()).build().expect("runtime");
+            rt.block_on(async {
+                let dispatcher = compio_dispatcher::Dispatcher::builder().worker_threads(NonZeroUsize::new(workers).unwrap()).proactor_builder(pb.clone()).build().expect("dispatcher");
+                let cluster = Cluster::from_dispatcher(dispatcher);
+                let supervisor = if supervised {
+                    let log = sup_log.clone();
+                    match cluster.spawn(move || Sup { log }, ()).await {
+                        Ok(p) => Some(p),
+                        Err(e) => {
+                            errs.push("spawn", format!("spawning the supervisor failed: {e:?}"));
+                            return;
+                        }
+                    }
+                } else {
+                    None
+                };
+                let mut mailboxes = Vec::new();
+                let mut handles = Vec::new();
+                for k in 0..members {
+                    let (rec, errs2) = (recs[k].clone(), errs.clone());
+                    let mut s = cluster.spawn(move || Worker { slot: k, rec, errs: errs2, fail_start: false }, ()).with_name(format!("member-{k}"));
+                    if let Some(c) = caps[k] {
+                        s = s.with_capacity(NonZeroUsize::new(c).unwrap());
+                    }
+                    if let Some((sup, _)) = &supervisor {
+                        s = s.with_supervisor(sup);
+                    }
+                    match compio_runtime::time::timeout(CALL_BOUND, s.into_future()).await {
+                        Ok(Ok((m, h))) => {
+                            mailboxes.push(m);
+                            handles.push(h);
+                        }
+                        other => {
+                            errs.push("spawn", format!("spawning member {k} failed or hung: {:?}", other.map(|r| r.map(|_| ()))));
+                            return;
+                        }
+                    }
+                }
+                let group = ProcessGroup::<Msg>::new();
+                let fail_group = ProcessGroup::<Fail>::new();
+                let memberships: Arc<Mutex<Vec<Option<(Membership<Msg>, Membership<Fail>)>>>> =
+                    Arc::new(Mutex::new(mailboxes.iter().map(|m| Some((group.join(m.broker()), fail_group.join(m.broker())))).collect()));
+                if group.len() != members {
+                    errs.push("group", format!("{members} members joined, the group counts {}", group.len()));
+                }
+                // ---- the program
+                let run_step = {
+                    let (group, fail_group, mailboxes, memberships) = (group.clone(), fail_group.clone(), mailboxes.clone(), memberships.clone());
+                    move |s: &GStep| -> Outcome {
+                        match s.op {
+                            GOp::Send(w) => deliver(group.send(Msg(s.id, w))),
+                            GOp::SendFailing => deliver(fail_group.send(Fail(s.id))),
+                            GOp::StopMember(k) => Outcome::Stopped(mailboxes[k].stop()),
+                            GOp::Leave(k) => {
+                                let m = memberships.lock().unwrap()[k].take();
+                                Outcome::Found(m.is_some())
+                            }
+                        }
+                    }
+                };
+                let threads: Vec<std::thread::JoinHandle<Vec<(u32, Outcome)>>> = (1..=clients)
+                    .map(|c| {
+                        let mine: Vec<GStep> = steps.iter().filter(|s| s.client == c).cloned().collect();
+                        let run_step = run_step.clone();
+                        std::thread::spawn(move || mine.iter().map(|s| (s.id, run_step(s))).collect())
+                    })
+                    .collect();
+                let mut outcomes: Vec<(u32, Outcome)> = Vec::new();
+                for s in steps.iter().filter(|s| s.client == 0) {
+                    outcomes.push((s.id, run_step(s)));
+                    YieldNow(false).await;
+                }
+                for t in threads {
+                    match t.join() {
+                        Ok(o) => outcomes.extend(o),
+                        Err(_) => errs.push("panic", "a client thread panicked".to_string()),
+                    }
+                }
+                sim::log(|| format!("outcomes {outcomes:?}"));
+                let outcome = |id: u32| outcomes.iter().find(|(i, _)| *i == id).map(|(_, o)| *o);
+                let disturbed = steps.iter().any(|s| !matches!(s.op, GOp::Send(_)));
+                // ---- wind down: live members handle what they accepted, then everything is stopped
+                let mut all_answered = true;
+                for (k, m) in mailboxes.iter().enumerate() {
+                    if m.is_closed() {
+                        continue;
+                    }
+                    let mut answered = false;
+                    for _ in 0..200 {
+                        match compio_runtime::time::timeout(CALL_BOUND, m.call(Ask(BARRIER + k as u32))).await {
+                            Ok(Ok(_)) => {
+                                answered = true;
+                                break;
+                            }
+                            Ok(Err(CallError::Full(_))) => compio_runtime::time::sleep(Duration::from_micros(100)).await,
+                            Ok(Err(_)) => break,
+                            Err(_) => {
+                                errs.push("call-hangs", format!("member {k}: a call to it did not return within {CALL_BOUND:?}"));
+                                break;
+                            }
+                        }
+                    }
+                    all_answered &= answered;
+                    m.stop();
+                }
+                let mut exits = Vec::new();
+                for (k, h) in handles.into_iter().enumerate() {
+                    match compio_runtime::time::timeout(CALL_BOUND, h).await {
+                        Ok(Ok(e)) => exits.push(Some(e)),
+                        Ok(Err(_)) => {
+                            errs.push("exit", format!("member {k}: the handle reports that the worker stopped before the actor exited"));
+                            exits.push(None);
+                        }
+                        Err(_) => {
+                            errs.push("handle-hangs", format!("member {k} was stopped; its handle did not resolve within {CALL_BOUND:?}"));
+                            exits.push(None);
+                        }
+                    }
+                }
+                // ---- routing
+                let handled_by: Vec<Vec<u32>> = recs.iter().map(|r| r.events.lock().unwrap().iter().filter_map(|e| if let Ev::Handle(i) = e { Some(*i) } else { None }).collect()).collect();
+                sim::log(|| format!("handled per member {handled_by:?}; exits {exits:?}"));
+                for s in steps.iter().filter(|s| matches!(s.op, GOp::Send(_) | GOp::SendFailing)) {
+                    let by: Vec<usize> = (0..members).filter(|k| handled_by[*k].contains(&s.id)).collect();
+                    let times: usize = handled_by.iter().map(|h| h.iter().filter(|i| **i == s.id).count()).sum();
+                    match outcome(s.id) {
+                        Some(Outcome::Accepted) => {
+                            if times > 1 {
+                                errs.push("group-duplicated", format!("message {} sent through the group was handled {times} times (members {by:?})", s.id));
+                            }
+                            if times == 0 && !disturbed && all_answered {
+                                errs.push("group-lost", format!("message {} was accepted by the group, no member was stopped, failed or left, every member answered a later call, and none has handled it", s.id));
+                            }
+                        }
+                        Some(o @ (Outcome::Full | Outcome::Closed)) => {
+                            if times > 0 {
+                                errs.push("group-returned-but-handled", format!("message {} was handed back by the group ({o:?}) and handled all the same by members {by:?}", s.id));
+                            }
+                            if o == Outcome::Closed && !disturbed {
+                                errs.push("group-closed", format!("message {} was refused as Closed although all {members} members were alive and in the group", s.id));
+                            }
+                        }
+                        _ => {}
+                    }
+                }
+                // ---- supervision
+                if let Some((sup, sup_handle)) = supervisor {
+                    // the notices are in the supervisor's mailbox by now (the members have exited): let it handle them
+                    for _ in 0..50 {
+                        if sup_log.lock().unwrap().iter().filter(|(_, w)| *w != "started").count() >= members {
+                            break;
+                        }
+                        compio_runtime::time::sleep(Duration::from_micros(200)).await;
+                    }
+                    sup.stop();
+                    if compio_runtime::time::timeout(CALL_BOUND, sup_handle).await.is_err() {
+                        errs.push("handle-hangs", "the supervisor was stopped; its handle did not resolve".to_string());
+                    }
+                    let log = sup_log.lock().unwrap().clone();
+                    for k in 0..members {
+                        let mine: Vec<&'static str> = log.iter().filter(|(n, _)| *n == format!("member-{k}")).map(|(_, w)| *w).collect();
+                        let want_end = match &exits[k] {
+                            Some(ActorExit::Stopped) => "terminated",
+                            Some(ActorExit::Failed(_)) => "failed",
+                            None => continue,
+                        };
+                        if mine != ["started", want_end] {
+                            errs.push("supervision", format!("member {k} started and exited with {:?}; its supervisor was told {mine:?} (expected [\"started\", {want_end:?}])", exits[k]));
+                        }
+                    }
+                }
+                drop(memberships);
+                drop(mailboxes);
+                match compio_runtime::time::timeout(Duration::from_secs(120), cluster.join()).await {
+                    Ok(Ok(())) => {}
+                    Ok(Err(e)) => errs.push("join-failed", format!("Cluster::join failed: {e}")),
+                    Err(_) => errs.push("join-hangs", "Cluster::join did not return within 120 s of simulated time".to_string()),
+                }
+            });
+        }
+    })?;
+    errs.first()?;
+    check!(end.open_rings == 0 && multi.open_rings == 0, "ring-leak", "{} rings still open", end.open_rings + multi.open_rings);
     Ok(())
 }
